@@ -7,5 +7,40 @@ ENGINES = [
 ]
 NOTES = "Runtime monitoring only: every verdict comes from an oracle observing executions of the real code. See DESIGN.md."
 ALL = ["C%02d" % i for i in range(1, 21)]
-CHECKS = []
-NOT_APPLICABLE = [{"property_id": p, "reason": "monitor not built yet (work in progress, see DESIGN.md §3)"} for p in ALL]
+
+def C(id, level, technique, text, note, engine="cli-monitor"):
+    return dict(id=id, level=level, technique=technique, text=text, note=note, engine=engine)
+
+
+CLI = "runtime monitoring: oracle over observed runs of the release binary"
+CHECKS = [
+    C("C01", "exploration", CLI + " on grammar-generated conforming streams",
+      "Seeded grammar generator of conforming ITS streams (all barrels, formats 0/2, RDH v6/v7, split packets, no-data runs, PhT, CDW, padding 0..15, merges, batch multiples) run through all five check modes with option rotation; any error on stderr / in the statistics file / report, or a non-zero exit, is a violation. Held on the sampled streams; feature coverage is measured and a run that misses grammar features is inconclusive.",
+      "The grammar is my transcription of doc/checks_list.md, the state diagram and the shipped test files; sampled, not exhaustive."),
+    C("C02", "fault_enumeration", CLI + " under an enumerated fault catalogue",
+      "50 catalogue entries (one or more per documented rule) applied at first/middle/last applicable position of a random link of fresh conforming streams; in every mode where the rule is active a message of the rule's code family must exist at the offending offset (statistics file and stderr) and the exit status must be the configured -E value; purely stateful faults must leave check sanity silent.",
+      "Existence oracle (cascades ignored); RDH0 faults not placed on the first RDH of the input; positions sampled per run (3 per entry quick, 36 thorough)."),
+    C("C03", "exploration", CLI + " + in-process driver of the real InputScanner",
+      "G-frame streams with arbitrary header values: rows of view rdh / data view, rdh_stats, writer output and in-process (rdh, payload, offset) triples compared with an independent chain walk, over file/stdin x payload loaded/skipped x all filter kinds, counts around the 100-packet batch.",
+      "Well-framed, recognised input with known system ids; sampled inputs."),
+    C("C07", "exploration", CLI + ": every message decoded back against the input bytes",
+      "Every error message of runs on arbitrary / corrupted well-framed content: leading offset inside the input and at an RDH or word slot start, quoted 10 bytes equal to the bytes at the offset, `current:`/`previous:` rows equal to the decoded headers; all check modes, with filters, multi-link.",
+      "Only inputs whose payload layout agrees with the header's data format (the others are finding D8)."),
+    C("C08", "exploration", CLI + ": reference filter over the chain walk",
+      "Output bytes (file and stdout, from file and pipe) compared byte for byte with the reference filter for link/FEE/stave filters incl. absent values; union over all values partitions the input; output re-walked and re-filtered; Filter Stats count compared.",
+      "Sampled streams; re-filtering only when the first matching packet is itself recognisable."),
+    C("C09", "exploration", "in-process lockstep of the real FSM/validator with a table model of the documented diagram",
+      "Breadth-first closure of the product (implementation state id via hook H3 x diagram state) over a 21-class word alphabet - complete for that alphabet: every transition taken, every (state, illegal word) pair must be reported at the word - then millions of random words in long histories.",
+      "Diagram transcription is mine (10 states); TDT directly after a data-announcing TDH treated as documented ambiguity.", "fp_inproc"),
+    C("C11", "exploration", "in-process comparison of the real predicates with reference predicates from the bit layouts",
+      "Per status word type all 256 identifiers x {zero, 72 single bits, 2556 bit pairs, all ones} (complete) plus millions of random bodies; data words 256 identifiers x lane masks.",
+      "Reference predicates are my transcription of the bit layouts; 2^80 space sampled beyond the structured part.", "fp_inproc"),
+    C("C14", "exploration", CLI + ": statistics vs independent counts",
+      "Statistics file (JSON and TOML) and report rows of 9 modes x filters compared with counts from the chain walk / generator ground truth (visited, matching, payload, links, FEE ids, versions, HBFs, layer/staves, 20 trigger counters, error totals and codes, ALPIDE flags).",
+      "One system id per stream; no error cap / fatal input."),
+    C("C19", "exploration", CLI + ": view rows decoded back; styled vs unstyled; checker classification in-process",
+      "Every row of the three views compared with independent decoding of the bytes at its offset (RDH attributes, TDH/TDT/DDW flags), styled vs unstyled equality, and on conforming streams the shown word kind vs the kind assigned by the real cutter+FSM.",
+      "Words with known identifiers; sampled streams."),
+]
+done = {c["id"] for c in CHECKS}
+NOT_APPLICABLE = [{"property_id": p, "reason": "monitor not registered yet (work in progress, see DESIGN.md §3)"} for p in ALL if p not in done]
